@@ -276,6 +276,7 @@ func (c *Case) BuildRelations() osm.Relations {
 type Opts struct {
 	Regime      int
 	ManyUpdates bool // C12: many child versions per parent, same-second clusters
+	Free        bool // Pre regime: no window discipline (several child versions inside one threshold window, parents arbitrarily close); only metamorphic relations are judged on such cases
 	NoErrors    bool // only consistent histories (no deletions, nothing missing)
 }
 
@@ -292,7 +293,11 @@ func Gen(t *rapid.T, o Opts) Case {
 	} else {
 		c.Eps = rapid.SampledFrom([]int{1, 2, 5, 60, 1800, 7200}).Draw(t, "eps")
 		c.LateBase = rapid.IntRange(0, 2).Draw(t, "lateBase") == 0
-		genPre(t, &c, o)
+		if o.Free {
+			genPreFree(t, &c)
+		} else {
+			genPre(t, &c, o)
+		}
 	}
 	c.Shuffle = int64(rapid.IntRange(0, 1000).Draw(t, "shuffle"))
 	c.AsChildren = rapid.IntRange(0, 3).Draw(t, "asChildren") == 0
@@ -458,6 +463,66 @@ func genPre(t *rapid.T, c *Case, o Opts) {
 	}
 	for i := range T {
 		pv := PV{Ver: i + 1, At: T[i], Visible: true, CS: pcs(i)}
+		nn := rapid.IntRange(1, 4).Draw(t, "nrefs")
+		for k := 0; k < nn; k++ {
+			pv.Refs = append(pv.Refs, rapid.IntRange(0, nchild-1).Draw(t, "ref"))
+			pv.PreAnn = append(pv.PreAnn, false)
+		}
+		c.Parents = append(c.Parents, pv)
+	}
+}
+
+// genPreFree draws pre-commit histories without the window discipline of
+// genPre: the answer then depends on documented-but-unstated tie rules, so only
+// relations that hold for any rule are judged on them.
+func genPreFree(t *rapid.T, c *Case) {
+	eps := c.Eps
+	np := rapid.IntRange(2, 4).Draw(t, "np")
+	T := make([]int, np)
+	cur := 10
+	for i := range T {
+		cur += 1 + rapid.IntRange(0, 3*eps).Draw(t, "gap")
+		T[i] = cur
+	}
+	end := T[np-1] + 2*eps + 5
+	nchild := rapid.IntRange(1, 4).Draw(t, "nchild")
+	for ci := 0; ci < nchild; ci++ {
+		ch := Child{ID: int64(ci + 1)}
+		if !c.ParentIsWay {
+			ch.Kind = rapid.IntRange(0, 2).Draw(t, "kind")
+		}
+		times := []int{rapid.IntRange(0, 5).Draw(t, "t0")}
+		n := rapid.IntRange(0, 8).Draw(t, "nv")
+		for k := 0; k < n; k++ {
+			if rapid.Bool().Draw(t, "near") {
+				// near a parent version: inside its threshold window
+				ti := T[rapid.IntRange(0, np-1).Draw(t, "of")]
+				times = append(times, ti+rapid.IntRange(-eps, eps).Draw(t, "off"))
+			} else {
+				times = append(times, rapid.IntRange(6, end).Draw(t, "ts"))
+			}
+		}
+		for i := 1; i < len(times); i++ {
+			for j := i; j > 0 && times[j] < times[j-1]; j-- {
+				times[j], times[j-1] = times[j-1], times[j]
+			}
+		}
+		ver := 0
+		for _, ts := range times {
+			if ts < 0 {
+				ts = 0
+			}
+			ver++
+			cv := CV{Ver: ver, At: ts, Visible: true, CS: rapid.SampledFrom([]int64{1, 2, 100, 101, 102, 103}).Draw(t, "cs"), Rev: rapid.Bool().Draw(t, "rev")}
+			if ch.Kind == 0 {
+				cv.Lat, cv.Lon = coord(t, "lat"), coord(t, "lon")
+			}
+			ch.Versions = append(ch.Versions, cv)
+		}
+		c.Children = append(c.Children, ch)
+	}
+	for i := range T {
+		pv := PV{Ver: i + 1, At: T[i], Visible: true, CS: int64(100 + i)}
 		nn := rapid.IntRange(1, 4).Draw(t, "nrefs")
 		for k := 0; k < nn; k++ {
 			pv.Refs = append(pv.Refs, rapid.IntRange(0, nchild-1).Draw(t, "ref"))
